@@ -354,7 +354,7 @@ func (*diff) engineChange(from, to []schema.Attr) schema.Change {
 		}
 	// In case the engine attribute was added to the desired state (e.g., HCL)
 	// and it is not the default, we modify the engine to the desired value.
-	case !fromHas && toHas && !toE.Default && strings.ToLower(fromE.V) != strings.ToLower(EngineInnoDB):
+	case !fromHas && toHas && !toE.Default && strings.ToLower(toE.V) != strings.ToLower(EngineInnoDB):
 		return &schema.ModifyAttr{
 			From: &Engine{V: EngineInnoDB, Default: true},
 			To:   &toE,
